@@ -286,6 +286,9 @@ type CompiledProfile struct {
 	XTable []string
 	Mode   uint32
 	Raw    []byte
+	// Scalars: every number of the profile that is not inside an automaton, with the path of
+	// the struct it stands in (flags, capability sets, rlimits ...), in blob order
+	Scalars []string
 }
 
 func (p *CompiledProfile) dfaAt(suffix string) *DFA {
@@ -344,15 +347,36 @@ func ParseBlob(data []byte) ([]*CompiledProfile, error) {
 			b.pos += n
 			continue
 		case tagU8:
+			if err := b.need(1); err != nil {
+				return nil, err
+			}
+			if cur != nil {
+				cur.Scalars = append(cur.Scalars, fmt.Sprintf("%s/%s=%d", strings.Join(stack, "/"), pendingName, b.data[b.pos]))
+			}
 			b.pos++
 		case tagU16:
+			if err := b.need(2); err != nil {
+				return nil, err
+			}
+			if cur != nil {
+				cur.Scalars = append(cur.Scalars, fmt.Sprintf("%s/%s=%d", strings.Join(stack, "/"), pendingName, binary.LittleEndian.Uint16(b.data[b.pos:])))
+			}
 			b.pos += 2
 		case tagU32:
 			if err := b.need(4); err != nil {
 				return nil, err
 			}
+			if cur != nil {
+				cur.Scalars = append(cur.Scalars, fmt.Sprintf("%s/%s=%d", strings.Join(stack, "/"), pendingName, binary.LittleEndian.Uint32(b.data[b.pos:])))
+			}
 			b.pos += 4
 		case tagU64:
+			if err := b.need(8); err != nil {
+				return nil, err
+			}
+			if cur != nil {
+				cur.Scalars = append(cur.Scalars, fmt.Sprintf("%s/%s=%d", strings.Join(stack, "/"), pendingName, binary.LittleEndian.Uint64(b.data[b.pos:])))
+			}
 			b.pos += 8
 		case tagString:
 			if err := b.need(2); err != nil {
@@ -739,6 +763,15 @@ func EquivalentProfiles(p, q *CompiledProfile) (string, bool) {
 		}
 		if w, ok := Distinguish(a, b, viewMeaning); !ok {
 			return fmt.Sprintf("%s automaton differs on %q", which, w), false
+		}
+	}
+	// what is not in an automaton: profile flags, capability sets, rlimits
+	if len(p.Scalars) != len(q.Scalars) {
+		return fmt.Sprintf("the profiles hold different numbers of fields outside the automata: %v vs %v", p.Scalars, q.Scalars), false
+	}
+	for i := range p.Scalars {
+		if p.Scalars[i] != q.Scalars[i] {
+			return fmt.Sprintf("the profiles differ outside the automata: %s vs %s", p.Scalars[i], q.Scalars[i]), false
 		}
 	}
 	return "", true
